@@ -10,6 +10,15 @@ type tagIncludeNode struct {
 	ifExists          bool
 }
 
+// includeError turns the error of a nested ExecuteWriter into an *Error: it is one
+// already unless it comes from the writer the output is flushed to.
+func includeError(ctx *ExecutionContext, err error) *Error {
+	if e, ok := err.(*Error); ok {
+		return e
+	}
+	return ctx.OrigError(err, nil)
+}
+
 func (node *tagIncludeNode) Execute(ctx *ExecutionContext, writer TemplateWriter) *Error {
 	// Building the context for the template
 	includeCtx := make(Context)
@@ -54,14 +63,14 @@ func (node *tagIncludeNode) Execute(ctx *ExecutionContext, writer TemplateWriter
 		}
 		err2 = includedTpl.ExecuteWriter(includeCtx, writer)
 		if err2 != nil {
-			return err2.(*Error)
+			return includeError(ctx, err2)
 		}
 		return nil
 	}
 	// Template is already parsed with static filename
 	err := node.tpl.ExecuteWriter(includeCtx, writer)
 	if err != nil {
-		return err.(*Error)
+		return includeError(ctx, err)
 	}
 	return nil
 }
